@@ -653,3 +653,9 @@ def _std_minmax(which):
     return f
 MODELS['std::cmp::min'] = _std_minmax('min')
 MODELS['std::cmp::max'] = _std_minmax('max')
+
+for _t in INTBITS:
+    MODELS['std::convert::num::ptr_try_from_impls::<impl std::convert::TryFrom for %s>::try_from' % _t] = _try_from
+    MODELS['core::convert::num::ptr_try_from_impls::<impl std::convert::TryFrom for %s>::try_from' % _t] = _try_from
+MODELS['<std::vec::IntoIter as std::iter::ExactSizeIterator>::len'] = None
+del MODELS['<std::vec::IntoIter as std::iter::ExactSizeIterator>::len']
